@@ -398,9 +398,14 @@ impl ZipOffsetBlobStore {
         let mut store = Self::with_config(config)?;
 
         // Read content data with SIMD optimization for large content
-        store.content.reserve(header.content_bytes as usize)?;
-        let mut content_bytes = vec![0u8; header.content_bytes as usize];
-        reader.read_exact(&mut content_bytes)?;
+        // content_bytes is untrusted: read at most that many bytes and check that they were all there
+        // instead of allocating (twice) for whatever the header claims.
+        let mut content_bytes = Vec::new();
+        reader.by_ref().take(header.content_bytes).read_to_end(&mut content_bytes)?;
+        if content_bytes.len() as u64 != header.content_bytes {
+            return Err(ZiporaError::invalid_data("content section shorter than declared in header"));
+        }
+        store.content.reserve(content_bytes.len())?;
         
         // Use SIMD-optimized extend for large content
         if store.should_use_simd(content_bytes.len()) {
